@@ -3,7 +3,7 @@ import subprocess
 import engine
 
 POOL = ["a", "a b", "a  b", "a_b", "1a", "_", "é", "a__1", "col0_", "col1_", "sum", "cols", "t", "class",
-        "a_", "sum_", "b", "x__y__3", "a__b__1", "v___2", "a__b"]
+        "a_", "sum_", "b", "x__y__3", "a__b__1", "v___2", "a__b", "col1_x", "col0_y"]
 
 
 def chars(s):
